@@ -234,6 +234,21 @@ def run(ctx):
     # cores of two rules interleaving, a third protocluster further on, the origin moved through the interleaved cores
     for _ in range(40 if ctx.quick else 1000):
         cases.append(interleaved_cores_case(rng))
+    # a chain of anchoring genes with extender genes on both sides (C03's family), the origin moved into every gene of two
+    # bases and next to every gene
+    for _ in range(120 if ctx.quick else 3000):
+        made = c03.extenders_around_origin(rng)
+        if made is None:
+            continue
+        length = made["scene"]["L"]
+        cuts = set()
+        for loc in made["scene"]["locs"]:
+            first = loc["parts"][-1][0] if loc["strand"] == -1 else loc["parts"][0][0]
+            cuts.update({(length - first - 1) % length, (length - first) % length, (length - first - 2) % length})
+        ks = sorted(cuts - {0})
+        if ctx.quick and len(ks) > 8:
+            ks = sorted(rng.sample(ks, 8))
+        cases.append({"scene": made["scene"], "rules": made["rules"], "scale": made["scale"], "ks": ks, "orders": []})
     # the shipped rule files: what a rule is does not depend on which other rules were asked for in the same process
     selection_cases = []
     for _ in range(16 if ctx.quick else 200):
